@@ -85,6 +85,40 @@ theorem do_post :
     | nil => exact absurd rfl h
     | cons x xs => rfl
 
+open MiniconfVerif.Gen.Py in
+/-- **The tail of `Miniconf._do` as translated from async_.py and sync.py** (`Gen.Py.asyncPost` / `syncPost`: the
+statements after the wait — the re-raise of a stored device error in the sync client, `response == 1` → exactly one
+payload or "Not a leaf", otherwise `assert ret; return ret` — and `Gen.Py.asyncResponseOf` / `syncResponseOf`: the
+`response=` each of `get / set / list / clear / dump` passes) **is the model's `post`** (about which `do_post` and the C18
+theorems speak), for every request kind and every way a request can have ended: sync on the `ret` list the dispatcher
+leaves (`itemsOf`: the payloads, or the one exception object), async on the list `await fut` returns (an exception set
+on the future is raised by `await` itself: Python semantics, not in the source). `dump` awaits nothing in both. -/
+theorem source_do_tail_is_model :
+    (∀ k d, k ≠ Kind.dump → syncPost (syncResponseOf k) (itemsOf d) = post k d) ∧
+    (∀ k ret, k ≠ Kind.dump → asyncPost (asyncResponseOf k) (itemsOf (.ok ret)) = post k (.ok ret)) ∧
+    (∀ ret, syncPost (syncResponseOf .dump) ret = .none_ ∧ asyncPost (asyncResponseOf .dump) ret = .none_) ∧
+    (∀ d, post .dump (.ok d) = .none_) := by
+  refine ⟨?_, ?_, fun ret => ⟨rfl, rfl⟩, fun d => rfl⟩
+  · intro k d hk
+    cases d with
+    | exc code msg => cases k <;> first | exact absurd rfl hk | rfl
+    | ok ret =>
+      match ret with
+      | [] => cases k <;> first | exact absurd rfl hk | rfl
+      | [x] => cases k <;> first | exact absurd rfl hk | rfl
+      | x :: y :: r =>
+        cases k <;> first
+          | exact absurd rfl hk
+          | simp [syncPost, syncResponseOf, itemsOf, post, notLeaf, whole, strsOf, strsOf_map]
+  · intro k ret hk
+    match ret with
+    | [] => cases k <;> first | exact absurd rfl hk | rfl
+    | [x] => cases k <;> first | exact absurd rfl hk | rfl
+    | x :: y :: r =>
+      cases k <;> first
+        | exact absurd rfl hk
+        | simp [asyncPost, asyncResponseOf, itemsOf, post, notLeaf, whole, strsOf, strsOf_map]
+
 /-- a path is "absolute or empty" -/
 def AbsOrEmpty (p : Str) : Prop := p = [] ∨ p.head? = some '/'
 
